@@ -29,21 +29,18 @@ def res (off len : Nat) : Row := .raw off (zeros len)
 def rowHolds (img : Bytes) (r : Row) : Bool :=
   r.off + r.width ≤ img.length && (img.drop r.off).take r.width == r.bytes
 
-/-- rows sorted by offset, empty rows dropped -/
-def sortRows (rs : List Row) : List Row :=
-  (rs.filter (fun r => r.width ≠ 0)).mergeSort (fun a b => a.off ≤ b.off)
-
-/-- sorted rows cover `[pos, total)` contiguously -/
+/-- rows listed in ascending offset order cover `[pos, total)` contiguously, without gap or
+    overlap -/
 def tilesFrom : Nat → Nat → List Row → Bool
   | pos, total, [] => pos == total
   | pos, total, r :: rs => r.off == pos && tilesFrom (pos + r.width) total rs
 
 /-- the rows cover `[0, total)` exactly once -/
-def tiles (total : Nat) (rs : List Row) : Bool := tilesFrom 0 total (sortRows rs)
+def tiles (total : Nat) (rs : List Row) : Bool := tilesFrom 0 total rs
 
-/-- reference encoding: the rows' bytes in offset order (for tiling rows this is "place every
-    field at its offset in a buffer of `total` bytes") -/
-def render (rs : List Row) : Bytes := (sortRows rs).flatMap Row.bytes
+/-- reference encoding: every row's bytes at its offset — for tiling rows, their bytes in
+    offset order -/
+def render (rs : List Row) : Bytes := rs.flatMap Row.bytes
 
 /-- first violated requirement, if any -/
 def conforms (total : Nat) (rs : List Row) (img : Bytes) : Option String :=
